@@ -868,6 +868,11 @@ def external_cases(rnd):
         "c1(0.3) q[0], q[1];\nc2 q[1], q[2], q[3];\ninv @ c1(1) q[2], q[3];\npow(2) @ c2 q[0:3];\nh q;\ncx q;\ninv @ pow(3) @ inv @ h q[0];\npow(0) @ c1(1) q[0], q[1];\n",
         "qubit[3] q;\ngate c1(a, b) x { u3(a, b, 0.1) x; }\nc1(pi, 2) q[0];\ninv @ c1(1, 2 * 3) q;\nu3(1, 2, 3) q[1];\ncrz(0.5) q[0], q[1];\npow(-2) @ rx(0.5) q[2];\n",
         "qubit[2] q;\nqubit[2] r;\ngate c1 x, y { cx x, y; }\ndef f(qubit[2] a) { c1 a[0], a[1]; h a; }\nf(q);\nf(r);\nc1 q[0], r[1];\nfor int i in [0:1] { c1 q[i], r[i]; rx(i) q; }\n",
+        # operands and parameters of kept calls computed from variables, constants, loop variables, subroutine arguments, aliases
+        "qubit[4] q;\nint[8] k = 1;\nconst int[8] n = 2;\nfloat[64] th = 0.25;\ngate c1(a) x, y { rx(a) x; cx x, y; }\n"
+        "h q[k];\nc1(th) q[k], q[k + 1];\nrx(th * 2) q[n];\nif (k == 1) { h q[k + 2]; c1(k) q[0], q[n]; }\n"
+        "def f(qubit[2] p, int[8] m) { h p[m]; c1(m) p[0], p[1]; rx(m * 0.5) p[m]; }\nf(q[1:3], 1);\nlet al = q[{3, 0}];\nh al[k];\nc1(0.1) al[0], al[1];\n"
+        "for int i in [0:2] { cx q[i], q[i + 1]; c1(i) q[i], q[3 - k - i + 1]; }\nswitch (k) { case 1 { h q[n]; } default { h q[0]; } }\n",
     ]
     out = []
     for p in progs:
